@@ -36,7 +36,15 @@ pub fn clusters_from_sparse(mut indices: HashSet<(i32, i32, i32)>) -> Vec<Vec<(i
                             continue;
                         }
 
-                        let neighbor = (current.0 + x, current.1 + y, current.2 + z);
+                        // A voxel on the edge of the i32 range has no neighbor beyond it
+                        let neighbor = match (
+                            current.0.checked_add(x),
+                            current.1.checked_add(y),
+                            current.2.checked_add(z),
+                        ) {
+                            (Some(nx), Some(ny), Some(nz)) => (nx, ny, nz),
+                            _ => continue,
+                        };
                         if indices.remove(&neighbor) {
                             to_visit.push(neighbor);
                         }
